@@ -55,7 +55,7 @@ def getI (m : List (String × String)) (k : String) (cur lo hi : Nat) : Option N
     | some n => if lo ≤ n ∧ n ≤ hi then some n else none
     | none => none
 
-def knownKeys : List String := ["threads", "payload", "chunk", "lastdelay", "delete", "attempts", "scandelay", "order"]
+def knownKeys : List String := ["threads", "payload", "chunk", "lastdelay", "delete", "attempts", "scandelay", "order", "backoff"]
 
 def stopConf (c : StopCase) (ws : List String) : Option StopCase := do
   let m := ws.foldl (fun m w => let (k, v) := splitKV w; kvSet m k v) []
@@ -67,6 +67,8 @@ def stopConf (c : StopCase) (ws : List String) : Option StopCase := do
   let delete ← getI m "delete" c.delete 0 1
   let attempts ← getI m "attempts" c.attempts 1 100
   let scanDelay ← getI m "scandelay" c.scanDelay 1 100000
+  -- error-backoff in seconds (how long a failed request waits before its retry): timing only, no effect on the prediction
+  let _ ← getI m "backoff" 0 0 5
   let order ← match m.lookup "order" with
     | none => some c.order
     | some v => if v == "fifo" || v == "lifo" || v == "alpha" || v == "none" then some v else none
